@@ -46,7 +46,7 @@ class Contract:
     def __init__(self, target, params=None, requires=(), ensures=(), exc_ensures=(), raises=None,
                  ret=None, may_raise=(), modifies=(), loops=None, props=(), assumed=False, replay=None,
                  inline=False, uf=False, cm_contract=None, kind="function", note="", witnesses=(),
-                 reads_heap=False, unroll_while=0, self_type=None, verify=True, inline_callees=False, cm_body=None, local_types=None, ghost_init=None, custom=None, opaque_externals=False):
+                 reads_heap=False, unroll_while=0, self_type=None, verify=True, inline_callees=False, cm_body=None, local_types=None, ghost_init=None, custom=None, opaque_externals=False, fresh_result=False):
         self.target = target
         self.module, self.qual = target.split(":")
         self.params = params  # dict name -> Ty (None => from annotations)
@@ -67,6 +67,7 @@ class Contract:
         self.ghost_init = ghost_init
         self.custom = custom
         self.opaque_externals = opaque_externals
+        self.fresh_result = fresh_result
         self.verify = verify and not assumed
 
     @property
@@ -199,7 +200,10 @@ class World:
 
     def ref_getattr(self, ex, base: VRef, attr: str) -> V:
         if (base.sort, attr) in self.fields:
-            return ex.read_field(base, attr)
+            v = ex.read_field(base, attr)
+            if isinstance(v, (VSeq, VMap, VSet)):
+                v.owner = (base, attr)  # in-place mutation is written back to the heap
+            return v
         m = self.methods.get((base.sort, attr))
         if m is not None:
             return VFunc("builtin", f"{base.sort}.{attr}", impl=lambda e, a, k, _m=m, _b=base: _m(e, _b, a, k))
@@ -383,7 +387,16 @@ class World:
         if getattr(fn, "self_obj", None) is not None:
             a = [fn.self_obj] + a
         ex.bind_params(node.args, a, kwargs, env, Env(module=S.load_module(c.module)), c.qual)
-        return dict(env.vars)
+        out = dict(env.vars)
+        for nm, v in list(out.items()):
+            if isinstance(v, VFunc) and v.kind == "comp":
+                out[nm] = ex.comp_list(v.node, v.env, mutable=True)
+        for nm, t in (c.params or {}).items():
+            v = out.get(nm)
+            tt = t.t if isinstance(t, Opt) else t
+            if isinstance(tt, Seq) and isinstance(v, (VList, VTuple)):
+                out[nm] = ex.list_to_seq(VList(list(v.items), isinstance(v, VList)), tt.t)
+        return out
 
     def apply_contract(self, ex, c: Contract, args, kwargs, fn=None) -> V:
         bound = self.bind_contract_args(ex, c, args, kwargs, fn)
@@ -411,12 +424,16 @@ class World:
             res = NONE
         elif c.uf:
             res = self.uf_result(ex, c, bound)
+        elif c.fresh_result and isinstance(c.ret, Ref):
+            res = ex.new_object(c.ret.sort, f"{c.qual}_ret")
         else:
             res = ex.fresh(f"{c.qual}_ret", c.ret)
         res = ex.force(res)
         cx2 = Ctx(ex, bound, result=res, old_heap=old_heap, old_ghost=old_ghost)
         for nm, f in c.ensures:
-            ex.assume(f(cx2))
+            r = f(cx2)
+            for g in ([x[1] for x in r] if isinstance(r, list) else [r]):
+                ex.assume(g)
         return res
 
     def uf_result(self, ex, c, bound):
